@@ -394,18 +394,16 @@ func (ei *resourceInformer) handleWatchEvent(object interface{}, eventType kemty
 			Objects:     []kemtypes.ObjectAndFilterResult{*objFilterRes},
 		}
 
-		// fix race with enableKubeEventCb.
-		eventCbEnabled := false
+		// Check the flag and save the event in one critical section: if enableKubeEventCb
+		// replays and drops the buffer between the check and the append, the event is
+		// left in the buffer forever.
 		ei.eventBufLock.Lock()
-		eventCbEnabled = ei.eventCbEnabled
-		ei.eventBufLock.Unlock()
-		verifhook.At("ri.afterFlag", ei)
-
-		if eventCbEnabled {
+		if ei.eventCbEnabled {
+			ei.eventBufLock.Unlock()
+			verifhook.At("ri.afterFlag", ei)
 			// Pass event info to callback.
 			ei.putEvent(kubeEvent)
 		} else {
-			ei.eventBufLock.Lock()
 			// Save event in buffer until the callback is enabled.
 			if ei.eventBuf == nil {
 				ei.eventBuf = make([]kemtypes.KubeEvent, 0)
